@@ -261,3 +261,23 @@ def check(ctx):
                         "%s re-enables %%last_error%% recording (%s) without re-enabling :error: recording: after a failure swallowed there, a later failure is reported by an uncaught run "
                         "but an enclosing xor's :error: still shows the swallowed one" % (g.path, c_.path.split("::")[-1]), sample={"fn": g.path})
     ctx.floor("R-SIBLING", "sites re-enabling %last_error% recording", n_sites, 2)
+
+
+    # 6. recording is switched off only for an error that is already recorded.  `disable_error_setting` is called (a) at
+    # the end of set_errors, after both descriptors were written, and (b) by `(fail :error:)` to re-throw :error: as is.
+    # A freshly raised error must still be recordable by the enclosing `execute!`, so no path that leaves the function
+    # through a `?` (a new error) may have passed `disable_error_setting` first.
+    ctx.clause("R-PAIR disable_error_setting is never followed by a freshly raised (`?`-propagated) error in the same function")
+    n_dis = 0
+    for g in F.fns.values():
+        if g.crate != "air":
+            continue
+        for c_ in g.calls_to("ErrorDescriptor::disable_error_setting"):
+            n_dis += 1
+            after = g.reach_after(c_.bb)
+            fresh = [x for x in g.calls if x.bb in after and lib.is_from_residual(x.path)]
+            ctx.require(not fresh, "R-PAIR", "error-setting:no-fresh-error-after-disable:" + g.path.split("::")[-1],
+                        "%s: nothing fallible runs after error recording is switched off" % g.path.split("::")[-1],
+                        "%s switches error recording off (disable_error_setting) and can afterwards leave with a freshly raised error (`?` at %s): that failure is reported by the run "
+                        "but never written to :error:, so an enclosing xor sees the no-error object" % (g.path, [x.loc() for x in fresh][:2]), sample={"fn": g.path})
+    ctx.floor("R-PAIR", "disable_error_setting sites", n_dis, 2)
